@@ -22,6 +22,28 @@ CHECKS = {
         ref='3/C14'),
 }
 
+CHECKS.update({
+    'C02': dict(
+        technique='property-based testing (Hypothesis: mutation + compression-graph grammar), bounded-exhaustive enumeration, coverage-guided fuzzing (atheris) with differential oracle',
+        text='Byte strings from four sources plus an atheris campaign (thorough) go through one oracle: no exception, work within a frozen '
+             'line/call budget measured with sys.monitoring, names <= 253 chars when valid, equality with an independent strict RFC 1035 '
+             'decoder whenever that accepts. The small-alphabet block is enumerated completely; everything else is exploration.',
+        note='trusts vlib/wire.py strict decoder and the frozen work budget (4x the adversarial maximum observed on the repaired tree)',
+        ref='3/C02'),
+    'C19': dict(
+        technique='property-based testing (Hypothesis grammar + rule-violation catalogue) against an independent three-valued name grammar; TXT round trip through an independent RFC 6763 parser',
+        text='Generated valid/near-valid names in both strict modes are judged by NameSpec (ACCEPT(type)/REJECT/UNSPECIFIED); property '
+             'dictionaries are encoded by ServiceInfo and decoded by an independent parser and by the library. Exploration.',
+        note='trusts vlib/models.py NameSpec/txt_parse; UNSPECIFIED regions create no obligation',
+        ref='3/C19'),
+    'C20': dict(
+        technique='bounded-exhaustive enumeration of record/question pairs plus property-based random pairs (Hypothesis); oracle = identity computed from construction parameters',
+        text='All ordered pairs over a bounded vocabulary (558 records + 27 questions in the quick tier) and random derived pairs; ==, !=, hash, '
+             'set/dict membership, DNSRRSet.suppresses and DNSCache.get/async_get_unique must agree with the identity relation.',
+        note='exhaustive only over the stated vocabulary; NSEC next-name case not varied',
+        ref='3/C20'),
+})
+
 NOT_YET = {
 }
 
